@@ -963,8 +963,13 @@ class reactive_ops:
                                     old=False, new=True, type='triggered')
                 watchers = trigger._param__private.watchers.get('value', {}).get('value', [])
                 for watcher in list(watchers):
-                    if watcher.precedence < 0:
-                        watcher.fn(event)
+                    # (the expressions only: whatever else watches the
+                    # trigger - an object following the expression as a
+                    # reference - hears of it once, in the second step)
+                    fn = watcher.fn
+                    if (watcher.precedence < 0 and isinstance(getattr(fn, '__self__', None), rx)
+                            and getattr(fn, '__name__', '').startswith('_invalidate')):
+                        fn(event)
             def notify(*events):
                 if not selects(branch):
                     return
